@@ -207,3 +207,167 @@ def run_batch(prop, seed, n_runs, wall_cap, workers=None, chunk=100, props_filte
     total["planned"] = n_runs
     total["hung"] = hung
     return total
+
+
+# ------------------------------------------------------------------ loss sweep
+
+SWEEP = {
+    # property -> (family of the base history, session policy of the base, next-connection policies)
+    "C11": ("clean", "clean", ("clean", "persistent")),
+    "C12": ("persistent", "persistent", ("persistent", "clean")),
+    "C09": ("qos2", "persistent", ("persistent",)),
+    "C06": ("subscriber", "persistent", ("persistent", "clean")),
+    "C07": ("subreq", "mixed", ("persistent", "clean")),
+    "C13": ("general", "mixed", ("persistent", "clean")),
+}
+
+
+def _loss_steps(kind, keepalive):
+    if kind == "fin":
+        return [{"op": "net.close", "addr": "A", "kind": "fin", "drop": False}]
+    if kind == "rst":
+        return [{"op": "net.close", "addr": "A", "kind": "rst", "drop": True}]
+    if kind == "disconnect":
+        return [{"op": "app.call", "addr": "A", "m": "disconnect"}, {"op": "time.fire", "tie": 0},
+                {"op": "net.finish_close", "addr": "A"}]
+    if kind == "protoerr":
+        # client aborts after a protocol error (reserved packet type), the loss follows
+        return [{"op": "brk.raw", "addr": "A", "hex": "f000"}, {"op": "net.finish_close", "addr": "A"},
+                {"op": "net.close", "addr": "A", "kind": "rst", "drop": True}]
+    if kind == "keepalive":
+        return [{"op": "time.advance", "dt": keepalive}, {"op": "time.advance", "dt": keepalive + 0.5},
+                {"op": "net.finish_close", "addr": "A"}, {"op": "net.close", "addr": "A", "kind": "rst", "drop": True}]
+    raise ValueError(kind)
+
+
+def sweep_chunk(args):
+    """Crash-point sweep: for a seeded fault-free base history, re-execute it cut by
+    a connection loss of every kind after every step, followed by a rebuilt
+    protocol, further traffic, drain and silence."""
+    prop, base, start, count, props_filter = args
+    import random
+    from sim import boot
+    ns = boot.boot()
+    from sim import runner, gen as G
+    fam, sess, nexts = SWEEP[prop]
+    out = {"cases": 0, "runs": 0, "disp": 0, "viol": {}, "kinds": {}, "digests": set(), "nontrivial": 0, "errors": [],
+           "crash_points": 0, "samples": []}
+    for i in range(start, start + count):
+        seed = base + (1 << 30) + i
+        rng = random.Random(seed)
+        cfg = G.make_config(rng, fam)
+        cfg["seed"] = seed
+        cfg["session"] = sess if sess != "mixed" else rng.choice(["clean", "persistent"])
+        cfg["two_addr"] = False
+        cfg["length"] = rng.randint(6, 22)
+        cfg["faults"].update({"close": False, "stall": False, "raw": False})
+        if i % 3 == 0:
+            cfg["keepalive"] = rng.choice([2, 5, 60])
+        g = G.Gen(rng, cfg)
+        from sim.world import World
+        from sim.engine import Ledger
+        w = World(ns, cfg)
+        L = Ledger(w, [], ["none"])
+        w.observer = L.observe
+        basesteps = []
+        for _ in range(cfg["length"]):
+            st = g.next(w, L)
+            if st["op"] in ("net.close", "net.stall") or (st["op"] == "app.call" and st.get("m") == "disconnect"):
+                continue
+            basesteps.append(st)
+            w.run_step(st)
+        out["cases"] += 1
+        kinds = ["fin", "rst", "disconnect", "protoerr"] + (["keepalive"] if cfg["keepalive"] else [])
+        vv = {"$": "v31"} if cfg["version"] == 3 else {"$": "v311"}
+        for cut in range(1, len(basesteps) + 1):
+            out["crash_points"] += 1
+            for kind in kinds:
+                nxt = nexts[(cut + len(kind)) % len(nexts)]
+                tail = [{"op": "app.build", "addr": "A"}]
+                pre = rng.random() < 0.4
+                conn = {"op": "app.call", "addr": "A", "m": "connect", "a": ["again"],
+                        "k": {"cleanStart": nxt == "clean", "keepalive": 0, "version": vv}}
+                tail.append(conn)
+                if pre and cfg["profile"] & 2:
+                    tail.append({"op": "app.call", "addr": "A", "m": "publish", "k": {"topic": "p/pre", "message": "x", "qos": rng.randint(0, 2)}})
+                tail.append({"op": "brk.connack", "addr": "A", "rc": 0, "sp": nxt != "clean"})
+                if cfg["profile"] & 2:
+                    tail.append({"op": "app.call", "addr": "A", "m": "publish", "k": {"topic": "p/post", "message": "y", "qos": rng.randint(0, 2)}})
+                if cfg["profile"] & 1:
+                    tail.append({"op": "app.call", "addr": "A", "m": "subscribe", "a": ["s/#", 1]})
+                steps = basesteps[:cut] + _loss_steps(kind, cfg["keepalive"]) + tail + [{"op": "drain"}, {"op": "silence"}]
+                try:
+                    r = runner.run_steps(ns, cfg, steps, props_filter)
+                except Exception:
+                    import traceback
+                    out["errors"].append((seed, fam, traceback.format_exc()[-1200:]))
+                    continue
+                out["runs"] += 1
+                out["disp"] += r.world.seq
+                out["kinds"][kind] = out["kinds"].get(kind, 0) + 1
+                if relevant(prop, r.ledger):
+                    out["nontrivial"] += 1
+                    out["digests"].add(int(r.digest[:16], 16))
+                for v in r.violations:
+                    if v.prop != prop:
+                        continue
+                    e = out["viol"].get(v.sig)
+                    if e is None or len(steps) < e["nsteps"]:
+                        out["viol"][v.sig] = {"sig": v.sig, "seed": seed, "family": "sweep:" + fam + ":" + kind, "msg": v.msg,
+                                              "nsteps": len(steps), "cfg": cfg, "steps": steps, "count": (e["count"] if e else 0) + 1}
+                    else:
+                        e["count"] += 1
+        if len(out["samples"]) < 1:
+            out["samples"].append({"seed": seed, "base_steps": basesteps[:12], "loss_kinds": kinds})
+    out["digests"] = list(out["digests"])
+    return out
+
+
+def run_sweep(prop, seed, n_cases, wall_cap, props_filter=None, chunk=4):
+    workers = int(os.environ.get("VERIF_WORKERS", "0")) or min(16, os.cpu_count() or 4)
+    base = seed << 32
+    t0 = time.time()
+    tot = {"cases": 0, "runs": 0, "disp": 0, "viol": {}, "kinds": {}, "digests": set(), "nontrivial": 0, "errors": [],
+           "crash_points": 0, "samples": []}
+    ctx = multiprocessing.get_context("fork")
+    jobs = iter([(prop, base, s, min(chunk, n_cases - s), props_filter) for s in range(0, n_cases, chunk)])
+    from concurrent.futures import wait, FIRST_COMPLETED
+    with ProcessPoolExecutor(max_workers=workers, mp_context=ctx, initializer=_init_worker) as ex:
+        pending = set()
+        for _ in range(workers * 2):
+            j = next(jobs, None)
+            if j is not None:
+                pending.add(ex.submit(sweep_chunk, j))
+        while pending:
+            done, pending = wait(pending, timeout=900, return_when=FIRST_COMPLETED)
+            if not done:
+                tot["errors"].append((None, None, "sweep worker timeout"))
+                break
+            for f in done:
+                try:
+                    part = f.result()
+                except Exception as e:
+                    tot["errors"].append((None, None, "sweep worker failed: %r" % (e,)))
+                    continue
+                for k in ("cases", "runs", "disp", "nontrivial", "crash_points"):
+                    tot[k] += part[k]
+                for k, v in part["kinds"].items():
+                    tot["kinds"][k] = tot["kinds"].get(k, 0) + v
+                tot["digests"].update(part["digests"])
+                tot["errors"].extend(part["errors"])
+                if len(tot["samples"]) < 2:
+                    tot["samples"].extend(part["samples"][:1])
+                for sig, e in part["viol"].items():
+                    o = tot["viol"].get(sig)
+                    if o is None or e["nsteps"] < o["nsteps"]:
+                        cnt = (o["count"] if o else 0) + e["count"]
+                        tot["viol"][sig] = e
+                        e["count"] = cnt
+                    else:
+                        o["count"] += e["count"]
+                if time.time() - t0 < wall_cap:
+                    j = next(jobs, None)
+                    if j is not None:
+                        pending.add(ex.submit(sweep_chunk, j))
+    tot["wall"] = time.time() - t0
+    return tot
